@@ -398,7 +398,7 @@ pub fn gen_world(base: u64, run: u64, profile: Profile) -> World {
             let iter_bias = if profile == Profile::C09 { 78 } else { 55 };
             // the iterator family gets `iter_bias` percent; the rest is split with fixed weights
             // find 12, replace 8, nested 5, clone 6, rewrite 5, compile 6 (of 42)
-            let r = if wl.chance(iter_bias, 100) { 0 } else { iter_bias + wl.below(42) };
+            let r = if wl.chance(iter_bias, 100) { 0 } else { iter_bias + wl.below(43) };
             let mut op = if r < iter_bias {
                 // iterator family
                 if open.is_empty() || (open.len() < 3 && wl.chance(1, 4)) {
@@ -469,17 +469,22 @@ pub fn gen_world(base: u64, run: u64, profile: Profile) -> World {
                     let text = gen_rewrite(&mut wl, if ascii { &alpha_a } else { &alpha_u }, &hays[hay as usize].text);
                     OpKind::Rewrite { hay, text }
                 }
-            } else {
+            } else if r < iter_bias + 42 {
                 let re = wl.below(nre as u64) as u32;
                 let hay = pick_hay(&mut wl, ReRef::Shared(re), &regexes, &clone_src);
                 OpKind::Compile { re, hay }
+            } else {
+                // a long history on one object: the same find repeated many times
+                let re = pick_re(&mut wl, &clones);
+                let hay = pick_hay(&mut wl, re, &regexes, &clone_src);
+                OpKind::Burst { re, hay, n: [70, 300, 1500][wl.usize_below(3)] }
             };
             // nested replace on an ascii-kind outer regex would feed non-ASCII to nothing: fine,
             // outer always runs the UTF-8 backtracker; but keep ascii-kind *inner* on ASCII hays (done above)
             if let OpKind::ReplaceNested { re: ReRef::Shared(i), .. } = &op {
                 let _ = i;
             }
-            let searching = matches!(op, OpKind::Next { .. } | OpKind::Drain { .. } | OpKind::Find { .. } | OpKind::Replace { .. } | OpKind::ReplaceNested { .. } | OpKind::Compile { .. } | OpKind::CloneRegex { .. });
+            let searching = matches!(op, OpKind::Next { .. } | OpKind::Drain { .. } | OpKind::Find { .. } | OpKind::Replace { .. } | OpKind::ReplaceNested { .. } | OpKind::Compile { .. } | OpKind::CloneRegex { .. } | OpKind::Burst { .. });
             let cancel_at = if searching && cancel_pct > 0 && wl.chance(cancel_pct, 100) {
                 match wl.below(4) {
                     0 => 1 + wl.below(4),
